@@ -7,7 +7,7 @@ namespace Resp
 /-- the fields flushResponse looks at -/
 def SameCtl (r r' : R) : Prop :=
   r'.buffer = r.buffer ∧ r'.bodyBuffer = r.bodyBuffer ∧ r'.headEncoded = r.headEncoded ∧
-  r'.statusCode = r.statusCode ∧ r'.chunked = r.chunked ∧ r'.chunkChecked = r.chunkChecked ∧ r'.header = r.header
+  r'.statusCode = r.statusCode ∧ r'.chunked = r.chunked ∧ r'.chunkChecked = r.chunkChecked ∧ r'.header = r.header ∧ r'.closeDelim = r.closeDelim
 
 theorem copyLoop_ok (g : Cfg) (hg : NoFail g) (f : Nat) (r : R) (d : Bytes) (w : Nat) (hf : d.length < f) :
     ∃ r', copyLoop g f r d w = (r', w + d.length, true) ∧ r'.wire.flatten = r.wire.flatten ++ d ∧ SameCtl r r' := by
@@ -17,7 +17,7 @@ theorem copyLoop_ok (g : Cfg) (hg : NoFail g) (f : Nat) (r : R) (d : Bytes) (w :
     unfold copyLoop
     by_cases hd : d = []
     · subst hd
-      exact ⟨r, by simp, by simp, rfl, rfl, rfl, rfl, rfl, rfl, rfl⟩
+      exact ⟨r, by simp, by simp, rfl, rfl, rfl, rfl, rfl, rfl, rfl, rfl⟩
     · have hne : (d == []) = false := by simpa using hd
       rw [hne]
       simp only [Bool.false_eq_true, ↓reduceIte, send_ok g hg]
@@ -33,12 +33,135 @@ theorem copyLoop_ok (g : Cfg) (hg : NoFail g) (f : Nat) (r : R) (d : Bytes) (w :
         simp only [List.flatten_append, List.flatten_cons, List.flatten_nil, List.append_nil, List.append_assoc,
           List.take_append_drop]
 
-/-- flushResponse after everything has been sent: nothing more goes out -/
-theorem finish_sent (g : Cfg) (r : R) (hb : r.buffer = none) (hbb : r.bodyBuffer = none) (he : r.headEncoded = true)
+/-- the copy of ReadFrom on a connection that accepts the writes -/
+theorem readCopy_ok (g : Cfg) (hg : NoFail g) (r : R) (k : RKind) (data : Bytes) :
+    ∃ r', readCopy g r k data = (r', .ok data.length) ∧ r'.wire.flatten = r.wire.flatten ++ data ∧ SameCtl r r' := by
+  unfold readCopy
+  by_cases h1 : (k == RKind.limited && data.length == 0) = true
+  · rw [if_pos h1]
+    have hd : data = [] := by
+      have := (Bool.and_eq_true _ _ ▸ h1).2
+      cases data with
+      | nil => rfl
+      | cons a t => simp at this
+    subst hd
+    exact ⟨r, rfl, by simp, rfl, rfl, rfl, rfl, rfl, rfl, rfl, rfl⟩
+  · rw [if_neg h1]
+    by_cases h2 : (g.sendfile && k != RKind.plain) = true
+    · rw [if_pos h2]
+      unfold sendDirect
+      simp only [send_ok g hg, ↓reduceIte]
+      exact ⟨_, rfl, by simp, rfl, rfl, rfl, rfl, rfl, rfl, rfl, rfl⟩
+    · rw [if_neg h2]
+      obtain ⟨r', c1, c2, c3⟩ := copyLoop_ok g hg (data.length + 1) r data 0 (Nat.lt_succ_self _)
+      rw [c1]
+      simp only [↓reduceIte, Nat.zero_add]
+      exact ⟨r', rfl, c2, c3⟩
+
+theorem sendHeadFirst_eq (g : Cfg) (r : R) : sendHeadFirst g r = sendFreeBuffer g r := rfl
+
+/-- ReadFrom's second paragraph: afterwards everything accepted so far is on the wire -/
+theorem sendBodyFirst_spec (g : Cfg) (hg : NoFail g) (r : R) (hd : Option Bytes) (B : Bytes)
+    (h : Bytes' r hd B) (hb0 : bufB r = []) :
+    (sendBodyFirst g r).2 = true ∧ (sendBodyFirst g r).1.wire.flatten = hd.getD [] ++ B ∧
+    bufB (sendBodyFirst g r).1 = [] ∧ bodyB (sendBodyFirst g r).1 = [] ∧
+    (sendBodyFirst g r).1.headEncoded = r.headEncoded ∧ (sendBodyFirst g r).1.statusCode = r.statusCode ∧
+    (sendBodyFirst g r).1.chunked = r.chunked ∧ (sendBodyFirst g r).1.chunkChecked = r.chunkChecked ∧
+    (sendBodyFirst g r).1.header = r.header ∧ (sendBodyFirst g r).1.closeDelim = r.closeDelim := by
+  unfold sendBodyFirst
+  have hb0' : r.buffer.getD [] = [] := hb0
+  cases hbb : r.bodyBuffer with
+  | none =>
+    have := h []
+    simp only [bufB, bodyB, hb0', hbb, Option.getD_none, List.nil_append, List.append_nil] at this
+    exact ⟨rfl, this, hb0, by simp [bodyB, hbb], rfl, rfl, rfl, rfl, rfl, rfl⟩
+  | some bb =>
+    simp only []
+    by_cases hl : bb.length > 0
+    · rw [if_pos hl, send_ok g hg]
+      have := h []
+      simp only [bufB, bodyB, hb0', hbb, Option.getD_some, List.nil_append, List.append_nil] at this
+      refine ⟨rfl, ?_, by simpa [bufB] using hb0', by simp [bodyB], rfl, rfl, rfl, rfl, rfl, rfl⟩
+      simpa using this
+    · rw [if_neg hl]
+      have hbe : bb = [] := by
+        cases bb with
+        | nil => rfl
+        | cons a t => simp at hl
+      have := h []
+      simp only [bufB, bodyB, hb0', hbb, hbe, Option.getD_some, List.nil_append, List.append_nil] at this
+      exact ⟨rfl, this, hb0, by simp [bodyB, hbb, hbe], rfl, rfl, rfl, rfl, rfl, rfl⟩
+
+/-- **ReadFrom appends.** In any state that satisfies the framing invariant `Base`, on a connection that accepts
+the writes: ReadFrom returns the number of bytes the reader yields; the head (encoded now if it was not) and
+everything accepted so far go out first, then exactly the reader's bytes; nothing stays buffered. -/
+theorem readFrom_appends (g : Cfg) (hg : NoFail g) (r : R) (hd : Option Bytes) (B : Bytes)
+    (h : Base r hd B) (k : RKind) (data : Bytes) :
+    ∃ r', readFrom g r k data = (r', .ok data.length) ∧
+      r'.wire.flatten = (hdAfter g { writeHeader200 r with hasBody := true } hd).getD [] ++ B ++ data ∧
+      bufB r' = [] ∧ bodyB r' = [] ∧ r'.headEncoded = true ∧ r'.statusCode = (writeHeader200 r).statusCode ∧
+      r'.chunkChecked = r.chunkChecked ∧ r'.chunked = r.chunked ∧ r'.header = (writeHeader200 r).header ∧
+      r'.closeDelim = r.closeDelim := by
+  obtain ⟨w1, w2, w3, w4, w5, w6⟩ := writeHeader_proj r 200 stOK
+  have hb1 : Base (writeHeader200 r) hd B := by
+    obtain ⟨b1, b2, b3, b4⟩ := h
+    refine ⟨?_, by rw [← b2]; exact w4, ?_, ?_⟩
+    · intro X; have := b1 X; unfold bufB bodyB writeHeader200 at *; rw [w1, w2, w3]; exact this
+    · intro hc; unfold writeHeader200 at *; rw [w2]; exact b3 (by rw [← w4]; exact hc)
+    · intro hc; unfold writeHeader200 at *; rw [w1]; exact b4 (by rw [← w4]; exact hc)
+  have w5' : (writeHeader200 r).chunkChecked = r.chunkChecked := w5
+  have w6' : (writeHeader200 r).chunked = r.chunked := w6
+  have w7' : (writeHeader200 r).closeDelim = r.closeDelim := by unfold writeHeader200; simp
+  unfold readFrom
+  dsimp only
+  generalize writeHeader200 r = r1 at *
+  have hb : Base { r1 with hasBody := true } hd B := ⟨hb1.bytes, hb1.henc, hb1.nobuf, hb1.nowire⟩
+  obtain ⟨e1, e2⟩ := eoncodeHead_base g { r1 with hasBody := true } hd B hb
+  generalize hdAfter g { r1 with hasBody := true } hd = hd1 at *
+  have q1 : (eoncodeHead g { r1 with hasBody := true }).statusCode = r1.statusCode := by simp
+  have q2 : (eoncodeHead g { r1 with hasBody := true }).chunked = r1.chunked := by simp
+  have q3 : (eoncodeHead g { r1 with hasBody := true }).chunkChecked = r1.chunkChecked := by simp
+  have q4 : (eoncodeHead g { r1 with hasBody := true }).header = r1.header := by simp
+  have q5 : (eoncodeHead g { r1 with hasBody := true }).closeDelim = r1.closeDelim := by simp
+  generalize eoncodeHead g { r1 with hasBody := true } = r2 at *
+  rw [sendHeadFirst_eq]
+  obtain ⟨s1, s2, s3⟩ := sendFreeBuffer_spec g hg r2 hd1 B e1.bytes
+  have p1 : (sendFreeBuffer g r2).1.headEncoded = r2.headEncoded ∧ (sendFreeBuffer g r2).1.statusCode = r2.statusCode ∧
+      (sendFreeBuffer g r2).1.chunked = r2.chunked ∧ (sendFreeBuffer g r2).1.chunkChecked = r2.chunkChecked ∧
+      (sendFreeBuffer g r2).1.header = r2.header ∧ (sendFreeBuffer g r2).1.closeDelim = r2.closeDelim := by
+    unfold sendFreeBuffer
+    cases r2.buffer with
+    | none => exact ⟨rfl, rfl, rfl, rfl, rfl, rfl⟩
+    | some b => simp [send_ok g hg]
+  generalize sendFreeBuffer g r2 = p at *
+  obtain ⟨r3, ok3⟩ := p
+  dsimp only at s1 s2 s3 p1 ⊢
+  subst s1
+  simp only [Bool.not_true, Bool.false_eq_true, ↓reduceIte]
+  obtain ⟨t1, t2, t3, t4, t5, t6, t7, t8, t9, t10⟩ := sendBodyFirst_spec g hg r3 hd1 B s2 s3
+  generalize sendBodyFirst g r3 = q at *
+  obtain ⟨r4, ok4⟩ := q
+  dsimp only at t1 t2 t3 t4 t5 t6 t7 t8 t9 t10 ⊢
+  subst t1
+  simp only [Bool.not_true, Bool.false_eq_true, ↓reduceIte]
+  obtain ⟨r', c1, c2, c3⟩ := readCopy_ok g hg r4 k data
+  obtain ⟨u1, u2, u3, u4, u5, u6, u7, u8⟩ := c3
+  refine ⟨r', c1, by rw [c2, t2], ?_, ?_, ?_, ?_, ?_, ?_, ?_, ?_⟩
+  · unfold bufB at t3 ⊢; rw [u1]; exact t3
+  · unfold bodyB at t4 ⊢; rw [u2]; exact t4
+  · rw [u3, t5, p1.1]; exact e2
+  · rw [u4, t6, p1.2.1, q1]
+  · rw [u6, t8, p1.2.2.2.1, q3, w5']
+  · rw [u5, t7, p1.2.2.1, q2, w6']
+  · rw [u7, t9, p1.2.2.2.2.1, q4]
+  · rw [u8, t10, p1.2.2.2.2.2, q5, w7']
+
+/-- flushResponse after everything has been sent (nothing buffered): nothing more goes out -/
+theorem finish_sent (g : Cfg) (hg : NoFail g) (r : R) (hb : bufB r = []) (hbb : bodyB r = []) (he : r.headEncoded = true)
     (hsc : r.statusCode ≠ 0) (hch : r.chunked = false) (hcc : r.chunkChecked = false)
     (hte : (hget r.header kTE).contains (str "chunked") = false) (htr : hget r.header kTrailer = [])
     (hcl : hfirst r.header kCL ≠ []) :
-    (finish g r).1.wire = r.wire ∧ (finish g r).2 = g.reqClose := by
+    (finish g r).1.wire.flatten = r.wire.flatten ∧ (finish g r).2 = (g.reqClose || r.closeDelim) := by
   have hcl' : (hfirst r.header kCL == []) = false := by simpa using hcl
   have e1 : checkChunked g (writeHeader200 r) = { r with chunkChecked := true } := by
     rw [writeHeader200_pre r hsc]
@@ -47,9 +170,29 @@ theorem finish_sent (g : Cfg) (r : R) (hb : r.buffer = none) (hbb : r.bodyBuffer
     simp [hcc, hte', htr, hcl']
   unfold finish
   rw [e1, eoncodeHead_enc g _ (by exact he)]
+  have hby : Bytes' { r with chunkChecked := true } (some r.wire.flatten) [] := by
+    intro X
+    have h1 : bufB { r with chunkChecked := true } = [] := hb
+    have h2 : bodyB { r with chunkChecked := true } = [] := hbb
+    rw [h1, h2]; simp
+  have hc2 : ({ r with chunkChecked := true } : R).chunked = false := hch
+  have hc3 : ({ r with chunkChecked := true } : R).closeDelim = r.closeDelim := rfl
+  generalize ({ r with chunkChecked := true } : R) = r2 at *
+  obtain ⟨c1, c2⟩ := flushIdentity_spec g hg r2 _ [] hby
+  simp only [hc2, Bool.false_eq_true, ↓reduceIte]
+  exact ⟨by simpa using c2, by simp [c1, hc3]⟩
+
+/-- the same in a body-phase state (prelude done): no condition on the header map -/
+theorem finish_sent_pre (g : Cfg) (hg : NoFail g) (r : R) (hp : Pre r) (hb : bufB r = []) (hbb : bodyB r = [])
+    (he : r.headEncoded = true) (hch : r.chunked = false) :
+    (finish g r).1.wire.flatten = r.wire.flatten ∧ (finish g r).2 = (g.reqClose || r.closeDelim) := by
+  unfold finish
+  rw [prelude_id g r hp, eoncodeHead_enc g r he]
+  have hby : Bytes' r (some r.wire.flatten) [] := by
+    intro X; rw [hb, hbb]; simp
+  obtain ⟨c1, c2⟩ := flushIdentity_spec g hg r _ [] hby
   simp only [hch, Bool.false_eq_true, ↓reduceIte]
-  unfold flushIdentity mergeStep sendFreeBuffer sendFreeBody
-  simp [hb, hbb]
+  exact ⟨by simpa using c2, by simp [c1]⟩
 
 /-- **ReadFrom, ServeContent shape.** -/
 theorem readFrom_spec (g : Cfg) (hg : NoFail g) (hdr : Header) (sc : Nat) (st : Bytes) (k : RKind) (data : Bytes)
@@ -61,51 +204,20 @@ theorem readFrom_spec (g : Cfg) (hg : NoFail g) (hdr : Header) (sc : Nat) (st : 
       g.head { writeHeader200 (start hdr sc st) with hasBody := true } ++ data ∧
     (finish g (readFrom g (start hdr sc st) k data).1).2 = g.reqClose := by
   obtain ⟨w1, w2, w3, w4⟩ := writeHeader200_sane g hdr sc st hs
-  obtain ⟨p1, p2, p3, p4, _, _⟩ := writeHeader_proj (start hdr sc st) 200 stOK
   have hsc : (writeHeader200 (start hdr sc st)).statusCode ≠ 0 := writeHeader200_sc _
-  have q1 : (writeHeader200 (start hdr sc st)).wire = [] := p1
-  have q2 : (writeHeader200 (start hdr sc st)).buffer = none := p2
-  have q3 : (writeHeader200 (start hdr sc st)).bodyBuffer = none := p3
-  have q4 : (writeHeader200 (start hdr sc st)).headEncoded = false := p4
-  generalize hr1 : writeHeader200 (start hdr sc st) = r1 at *
-  -- the state after the head and the bytes went out
-  suffices hmain : ∃ r', readFrom g (start hdr sc st) k data = (r', .ok data.length) ∧
-      r'.wire.flatten = g.head { r1 with hasBody := true } ++ data ∧ r'.buffer = none ∧ r'.bodyBuffer = none ∧
-      r'.headEncoded = true ∧ r'.statusCode = r1.statusCode ∧ r'.chunked = false ∧ r'.chunkChecked = false ∧
-      r'.header = hdr by
-    obtain ⟨r', e, f1, f2, f3, f4, f5, f6, f7, f8⟩ := hmain
-    rw [e]
-    obtain ⟨g1, g2⟩ := finish_sent g r' f2 f3 f4 (by rw [f5]; exact hsc) f6 f7 (by rw [f8]; exact hte)
-      (by rw [f8]; exact htr) (by rw [f8]; exact hcl)
-    exact ⟨rfl, by rw [g1]; exact f1, g2⟩
-  have e2 := eoncodeHead_new g { r1 with hasBody := true } q4
-  unfold readFrom
-  simp only [hr1, e2, send_ok g hg, Bool.not_true, Bool.false_eq_true, ↓reduceIte]
-  clear e2
-  generalize hH : g.head { r1 with hasBody := true } = H
-  by_cases h1 : (k == RKind.limited && data.length == 0) = true
-  · rw [if_pos h1]
-    have hd : data = [] := by
-      have := (Bool.and_eq_true _ _ ▸ h1).2
-      cases data with
-      | nil => rfl
-      | cons a t => simp at this
-    subst hd
-    exact ⟨_, rfl, by simp [q1], rfl, q3, rfl, rfl, w4, w3, w1⟩
-  · rw [if_neg h1]
-    by_cases h2 : (g.sendfile && k != RKind.plain) = true
-    · rw [if_pos h2]
-      unfold sendDirect
-      simp only [send_ok g hg, ↓reduceIte]
-      exact ⟨_, rfl, by simp [q1], rfl, q3, rfl, rfl, w4, w3, w1⟩
-    · rw [if_neg h2]
-      obtain ⟨r', c1, c2, c3⟩ := copyLoop_ok g hg (data.length + 1)
-        { r1 with trailer := trailerOf r1.header, buffer := none, headEncoded := true, hasBody := true,
-                  wire := r1.wire ++ [H], attempts := r1.attempts + 1 } data 0 (Nat.lt_succ_self _)
-      rw [c1]
-      simp only [↓reduceIte, Nat.zero_add]
-      obtain ⟨s1, s2, s3, s4, s5, s6, s7⟩ := c3
-      exact ⟨r', rfl, by rw [c2]; simp [q1], s1, by rw [s2]; exact q3, s3, s4, by rw [s5]; exact w4,
-        by rw [s6]; exact w3, by rw [s7]; exact w1⟩
+  have hbase : Base (start hdr sc st) none [] :=
+    ⟨by intro X; simp [start, bufB, bodyB], rfl, fun _ => rfl, fun _ => rfl⟩
+  obtain ⟨r', e, f1, f2, f3, f4, f5, f6, f7, f8, f9⟩ := readFrom_appends g hg (start hdr sc st) none [] hbase k data
+  have hq : (writeHeader200 (start hdr sc st)).headEncoded = false := by
+    obtain ⟨_, _, _, p4, _, _⟩ := writeHeader_proj (start hdr sc st) 200 stOK
+    exact p4
+  have hH : (hdAfter g { writeHeader200 (start hdr sc st) with hasBody := true } none).getD [] =
+      g.head { writeHeader200 (start hdr sc st) with hasBody := true } := by
+    unfold hdAfter; simp [hq]
+  rw [hH] at f1
+  rw [e]
+  obtain ⟨g1, g2⟩ := finish_sent g hg r' f2 f3 f4 (by rw [f5]; exact hsc) (by rw [f7]; rfl)
+    (by rw [f6]; rfl) (by rw [f8, w1]; exact hte) (by rw [f8, w1]; exact htr) (by rw [f8, w1]; exact hcl)
+  exact ⟨rfl, by rw [g1, f1]; simp, by rw [g2, f9]; simp [start]⟩
 
 end Resp
